@@ -48,20 +48,39 @@ type History struct {
 	Deadlock   bool     `json:"deadlock,omitempty"`
 }
 type EngineRound struct {
-	Seed       uint64   `json:"seed"`
-	Goroutines int      `json:"goroutines"`
-	Procs      int      `json:"gomaxprocs"`
-	Jobs       int      `json:"jobs"`
-	Kinds      []string `json:"kinds"`
-	Concurrent []bool   `json:"concurrent"`
-	Sequential []bool   `json:"sequential"`
-	Race       string   `json:"race,omitempty"`
-	Deadlock   bool     `json:"deadlock,omitempty"`
-	Bad        []string `json:"bad,omitempty"`
+	Seed        uint64   `json:"seed"`
+	Goroutines  int      `json:"goroutines"`
+	Procs       int      `json:"gomaxprocs"`
+	Jobs        int      `json:"jobs"`
+	Kinds       []string `json:"kinds"`
+	Concurrent  []bool   `json:"concurrent"`
+	Sequential  []bool   `json:"sequential"`
+	Race        string   `json:"race,omitempty"`
+	Deadlock    bool     `json:"deadlock,omitempty"`
+	Bad         []string `json:"bad,omitempty"`
+	Index       int      `json:"index"`
+	Shared      int      `json:"shared_script_objects"`
+	Differs     []string `json:"differs,omitempty"`
+	Validations int64    `json:"validations,omitempty"`
+}
+type Probe struct {
+	Kind  string `json:"kind"`
+	Input string `json:"input"`
+	Fault string `json:"fault"`
+}
+type ProbeResult struct {
+	Programs       int            `json:"programs"`
+	Accepted       int            `json:"accepted"`
+	ByFamily       map[string]int `json:"by_family"`
+	Faults         []Probe        `json:"faults,omitempty"`
+	FaultCount     int            `json:"fault_count"`
+	FaultsByFamily map[string]int `json:"faults_by_family,omitempty"`
 }
 type Result struct {
 	Histories []History     `json:"histories,omitempty"`
 	Rounds    []EngineRound `json:"rounds,omitempty"`
+	Probe     *ProbeResult  `json:"probe,omitempty"`
+	PoolNote  string        `json:"pool_note,omitempty"`
 	RaceBuild bool          `json:"race_build"`
 }
 
@@ -138,12 +157,29 @@ func buildRace(hd, out string) (string, error) {
 	return bin, nil
 }
 
+// buildPlain: the same command without the race detector, for the read-only-memory probe (which needs no schedule
+// and no detector, and runs several times as many programs in the same time without the instrumentation).
+func buildPlain(hd, out string) (string, error) {
+	bin := filepath.Join(out, "c18plain")
+	cmd := exec.Command("go", "build", "-tags", "verif", "-o", bin, "./cmd/c18race")
+	cmd.Dir = hd
+	cmd.Env = goEnv(hd)
+	b, err := cmd.CombinedOutput()
+	if err != nil {
+		return "", fmt.Errorf("go build ./cmd/c18race in %s: %v\n%s", hd, err, b)
+	}
+	return bin, nil
+}
+
 type childOut struct {
 	res      Result
 	crashed  bool
 	stderr   string
 	progress string
 }
+
+// set by main: the checkout (node script vectors) and the tier, handed to every child
+var childExtra []string
 
 func runChild(bin, workload string, seed uint64, n int, out string) childOut {
 	resFile := filepath.Join(out, "race_"+workload+".json")
@@ -153,7 +189,7 @@ func runChild(bin, workload string, seed uint64, n int, out string) childOut {
 		os.Remove(f)
 	}
 	os.Remove(resFile)
-	cmd := exec.Command(bin, "-workload", workload, "-seed", fmt.Sprint(seed), "-n", fmt.Sprint(n), "-result", resFile)
+	cmd := exec.Command(bin, append([]string{"-workload", workload, "-seed", fmt.Sprint(seed), "-n", fmt.Sprint(n), "-result", resFile}, childExtra...)...)
 	cmd.Env = append(os.Environ(), "GORACE=halt_on_error=0 exitcode=0 log_path="+logBase)
 	var errb strings.Builder
 	cmd.Stderr = &errb
@@ -241,6 +277,18 @@ func coqBools(bs []bool) string {
 	return "[" + strings.Join(parts, ";") + "]"
 }
 
+// kindFamily: the first two parts of a job kind (contract/num, program/matrix2, p2pkh/valid, ...)
+func kindFamily(kind string) string {
+	for i, n := 0, 0; i < len(kind); i++ {
+		if kind[i] == '/' {
+			if n++; n == 2 {
+				return kind[:i]
+			}
+		}
+	}
+	return kind
+}
+
 func bucket(n int) string {
 	switch {
 	case n <= 2:
@@ -268,19 +316,28 @@ func main() {
 		fmt.Fprintln(os.Stderr, err)
 		os.Exit(1)
 	}
+	plainBin, err := buildPlain(hd, c.Out)
+	if err != nil {
+		fmt.Fprintln(os.Stderr, err)
+		os.Exit(1)
+	}
 	buildSecs := time.Since(t0).Seconds()
-
-	nFee, nEng, nCoq := 150, 8, 40
+	childExtra = []string{"-repo", repo}
 	if c.Thorough() {
-		nFee, nEng, nCoq = 5000, 300, 200
+		childExtra = append(childExtra, "-thorough")
+	}
+
+	nFee, nEng, nCoq, nProbe, nHammer := 150, 8, 40, 400, 8
+	if c.Thorough() {
+		nFee, nEng, nCoq, nProbe, nHammer = 5000, 300, 200, 20000, 300
 	}
 	if c.Mode == "search" { // looking for a concrete failing schedule after something stopped checking
-		nFee, nEng, nCoq = 300, 12, 0
+		nFee, nEng, nCoq, nProbe, nHammer = 300, 12, 0, 2000, 40
 		if c.Thorough() {
-			nFee, nEng = 1200, 40
+			nFee, nEng, nHammer = 1200, 40, 150
 		}
 	}
-	c.Stats.Rule = "FeeQuote/FeeQuotes: seeded randomized concurrent histories run under the Go race detector (2..16 goroutines, GOMAXPROCS in {1,2,4,16}, 8..47 operations per goroutine over AddQuote, Fee, UpdateExpiry, Expiry, Expired, MarshalJSON, UnmarshalJSON (direct and through encoding/json), FeeQuotes.AddMiner, AddMinerWithDefault, Quote, Fee, UpdateMinerFees on 1..3 shared FeeQuote objects that are also reachable through one shared FeeQuotes); every written value is unique and self-checking (torn values are recognisable); a history is distinct by its seed and non-trivial when at least one read returned a value written by another operation of the history. Engine: rounds of 2..16 goroutines sharing one interpreter.Engine, every transaction (signed P2PKH with 1..3 inputs incl. bad-signature, wrong-amount and legacy SIGHASH_SINGLE variants; script-only pairs) validated by exactly one goroutine, verdicts compared with the sequential ones. Plus the lock table and the package-variable scan re-extracted from the checkout and judged by the Coq checker."
+	c.Stats.Rule = "FeeQuote/FeeQuotes: seeded randomized concurrent histories run under the Go race detector (2..16 goroutines, GOMAXPROCS in {1,2,4,16}, 8..47 operations per goroutine over AddQuote, Fee, UpdateExpiry, Expiry, Expired, MarshalJSON, UnmarshalJSON (direct and through encoding/json), FeeQuotes.AddMiner, AddMinerWithDefault, Quote, Fee, UpdateMinerFees on 1..3 shared FeeQuote objects that are also reachable through one shared FeeQuotes); every written value is unique and self-checking (torn values are recognisable); a history is distinct by its seed and non-trivial when at least one read returned a value written by another operation of the history. Engine: rounds of 2..16 goroutines sharing one interpreter.Engine, every transaction (signed P2PKH with 1..3 inputs incl. bad-signature, wrong-amount and legacy SIGHASH_SINGLE variants; script-only pairs) validated by exactly one goroutine, verdicts compared with the sequential ones; in every round about fifty locking script OBJECTS are named by several different transactions (validated by different goroutines): seven contracts per round out of a catalogue of 52 (walked through round after round) whose constants of 2..2049 bytes are read by one opcode family each (binary / unary arithmetic, comparisons, OP_WITHIN, OP_BIN2NUM / OP_NUM2BIN, index / position / size / shift-distance operands, CHECKLOCKTIMEVERIFY / CHECKSEQUENCEVERIFY, splice / bitwise / shift opcodes on byte strings, the five hash opcodes, conditionals, stack movers), every spender bringing its own operand and the result it expects (a third of them a wrong one), forty programs of the interpreter generators (opcode x edge-operand matrix, arithmetic edges, script boundaries, grammar-generated programs, P2SH, conditionals, the node's script vectors, OP_RETURN with tails of 0/1/2/more bytes) each over a locking script object shared by two transactions, signed P2PKH + OP_RETURN + payload outputs, and a bare 2-of-3 multisig script object; the script objects are compared with their bytes before the round. Hammer rounds (built without the race detector): the jobs without curve arithmetic of such a round (six contracts, twenty-four shared programs, OP_RETURN tails incl. <non-key> CHECKSIG NOT OP_RETURN <tail>, whose OP_CHECKSIG puts the whole script together again), every transaction owned by one of 4/8/16 goroutines, validated over and over for 200 ms, every verdict compared with the sequential one. Read-only probe (no schedule involved): the same families, enumerated (every contract template at every constant length of its era), executed with every script of the transaction and of the spent output stored in read-only pages: a write into a script the engine was handed, even one that is undone afterwards, is a memory fault. Plus the lock table and the package-variable scan re-extracted from the checkout and judged by the Coq checker."
 
 	// ---- the tables, re-extracted from the checkout this binary is built against
 	feeRaces, engRaces := 0, 0
@@ -358,15 +415,17 @@ func main() {
 		engRaces++
 		engFirst = firstReport(eng.stderr)
 	}
-	jobs, accepted := 0, 0
-	for _, e := range eng.res.Rounds {
+	jobs, accepted, sharedObjs := 0, 0, 0
+	var hammered int64
+	handleRound := func(workload string, e EngineRound) {
 		jobs += e.Jobs
-		c.Tally("engine/goroutines=" + bucket(e.Goroutines))
-		c.Tally(fmt.Sprintf("engine/gomaxprocs=%d", e.Procs))
+		hammered += e.Validations
+		c.Tally(workload + "/goroutines=" + bucket(e.Goroutines))
+		c.Tally(fmt.Sprintf("%s/gomaxprocs=%d", workload, e.Procs))
 		for _, k := range e.Kinds {
-			c.Tally("engine/rounds-with/" + k)
+			c.Tally(workload + "/rounds-with/" + kindFamily(k))
 		}
-		input := map[string]interface{}{"workload": "engine", "round_seed": e.Seed, "goroutines": e.Goroutines, "gomaxprocs": e.Procs, "jobs": e.Jobs, "run_seed": c.Seed}
+		input := map[string]interface{}{"workload": workload, "round_seed": e.Seed, "round": e.Index, "goroutines": e.Goroutines, "gomaxprocs": e.Procs, "jobs": e.Jobs, "run_seed": c.Seed}
 		if e.Race != "" {
 			engRaces++
 			if engFirst == "" {
@@ -377,6 +436,7 @@ func main() {
 		if e.Deadlock {
 			c.Violate("Engine.Execute/deadlock", "goroutines did not finish within 60s", input)
 		}
+		sharedObjs += e.Shared
 		for _, b := range e.Bad {
 			c.Violate("Engine.Execute/shared-script-object-changed", b, input)
 		}
@@ -386,16 +446,66 @@ func main() {
 				accepted++
 			}
 			if i < len(e.Concurrent) && e.Concurrent[i] != e.Sequential[i] {
-				input["job"] = i
-				c.Violate("Engine.Execute/verdict-differs", fmt.Sprintf("job %d: concurrent verdict %v, sequential verdict %v", i, e.Concurrent[i], e.Sequential[i]), input)
+				in2 := map[string]interface{}{"job": i}
+				for k, v := range input {
+					in2[k] = v
+				}
+				input = in2
+				what := fmt.Sprintf("job %d: concurrent verdict %v, sequential verdict %v", i, e.Concurrent[i], e.Sequential[i])
+				if len(e.Differs) > 0 {
+					what = e.Differs[0]
+					input["differing_jobs"] = e.Differs
+				}
+				c.Violate("Engine.Execute/verdict-differs", what, input)
 				break
 			}
 			if i > 0 && e.Sequential[i] != e.Sequential[0] {
 				mixed = true
 			}
 		}
-		twin := map[string]interface{}{"kind": "engine-round", "seed": e.Seed, "goroutines": e.Goroutines, "gomaxprocs": e.Procs, "jobs": e.Jobs, "kinds": e.Kinds, "race": e.Race != ""}
-		c.Case(fmt.Sprintf("CEngine %s %s", coqBools(e.Concurrent), coqBools(e.Sequential)), twin, fmt.Sprintf("engine/%d", e.Seed), mixed)
+		twin := map[string]interface{}{"kind": workload + "-round", "seed": e.Seed, "goroutines": e.Goroutines, "gomaxprocs": e.Procs, "jobs": e.Jobs, "job_kinds": len(e.Kinds), "script_objects_named_by_several_transactions": e.Shared, "race": e.Race != ""}
+		if e.Validations > 0 {
+			twin["validations"] = e.Validations
+		}
+		c.Case(fmt.Sprintf("CEngine %s %s", coqBools(e.Concurrent), coqBools(e.Sequential)), twin, fmt.Sprintf("%s/%d", workload, e.Seed), mixed)
+	}
+	for _, e := range eng.res.Rounds {
+		handleRound("engine", e)
+	}
+
+	// ---- the same without the race detector, over and over for a time budget: a race becomes a verdict that differs
+	ham := runChild(plainBin, "engine-hammer", c.Seed, nHammer, c.Out)
+	if ham.crashed {
+		c.Violate(crashSite("Engine.Execute", ham.stderr), "the repeated concurrent validation died: "+firstReport(ham.stderr), map[string]interface{}{"at": ham.progress, "seed": c.Seed, "workload": "engine-hammer"})
+		engRaces++
+	}
+	for _, e := range ham.res.Rounds {
+		handleRound("engine-hammer", e)
+	}
+
+	// ---- the read-only probe: every script handed to Execute in pages the process may only read (no schedule involved)
+	ro := runChild(plainBin, "engine-ro", c.Seed, nProbe, c.Out)
+	roPrograms, roFaults := 0, 0
+	if ro.crashed || ro.res.Probe == nil {
+		c.Violate("Engine.Execute/fatal-error", "the read-only-memory probe died: "+firstReport(ro.stderr), map[string]interface{}{"at": ro.progress, "seed": c.Seed, "workload": "engine-ro"})
+		roFaults++
+	} else {
+		pr := ro.res.Probe
+		roPrograms, roFaults = pr.Programs, pr.FaultCount
+		for k, v := range pr.ByFamily {
+			c.Stats.Distribution["read-only-probe/"+k] += v
+		}
+		for i, f := range pr.Faults {
+			if i >= 6 {
+				break // the first programs of six families; the counts per family are in the input
+			}
+			c.Violate("Engine.Execute/writes-into-a-script-it-was-handed",
+				"with the scripts stored in read-only memory the execution faults ("+f.Fault+"): the engine writes into the caller's script, which another transaction's validation may be reading at that moment (an operand popped off the stack is a slice of the script that pushed it)",
+				map[string]interface{}{"workload": "engine-ro", "kind": f.Kind, "program": f.Input, "run_seed": c.Seed, "faulting_programs": pr.FaultCount, "faulting_programs_by_family": pr.FaultsByFamily})
+		}
+		c.Case(fmt.Sprintf("CReadOnly %d %d", pr.Programs, pr.FaultCount),
+			map[string]interface{}{"kind": "read-only-probe", "programs": pr.Programs, "accepted": pr.Accepted, "faults": pr.FaultCount, "families": len(pr.ByFamily)},
+			"read-only-probe", pr.Accepted > 0 && pr.Accepted < pr.Programs)
 	}
 
 	// ---- informational: the inputs of ONE transaction validated from different goroutines
@@ -477,6 +587,14 @@ func main() {
 	c.Stats.Extra["engine_jobs"] = jobs
 	c.Stats.Extra["engine_jobs_accepted_sequentially"] = accepted
 	c.Stats.Extra["engine_race_reports"] = engRaces
+	c.Stats.Extra["engine_script_objects_named_by_several_transactions"] = sharedObjs
+	c.Stats.Extra["engine_hammer_rounds"] = len(ham.res.Rounds)
+	c.Stats.Extra["engine_hammer_validations"] = hammered
+	c.Stats.Extra["read_only_probe_programs"] = roPrograms
+	c.Stats.Extra["read_only_probe_faults"] = roFaults
+	if eng.res.PoolNote != "" {
+		c.Stats.Extra["engine_program_pool_note"] = eng.res.PoolNote
+	}
 	c.Stats.Extra["first_fee_race"] = feeFirst
 	c.Stats.Extra["first_engine_race"] = engFirst
 	c.Stats.Extra["same_tx_inputs_from_different_goroutines"] = sameTx
